@@ -145,10 +145,14 @@ CLAIMED = {
         "over the policy); spec/MC_ErrorPolicy.tla enumerates all 64 policies x overrides x 6 error kinds (argument mismatch on the "
         "component / in value position, a function's own rule, a Python exception, nested, right of ->) x every non-empty set of "
         "offending lines, and TLC checks the property's five iff-clauses (written independently) on every behaviour; every behaviour "
-        "is replayed through a real CsvPath with the policy written to a generated config.ini (empty policy via a Config object).",
-        note="Trusted: TLC, the six concrete error-provoking components as representatives of their kinds. printed/collected are judged "
+        "is replayed through a real CsvPath with the policy written to a generated config.ini (empty policy via a Config object), each "
+        "through one of 24 concrete error shapes probed at the start of the check. The handler is also part of the run machine (Eval!Flush = "
+        "ErrorPolicy!HandleN after every line): generated programs with error-provoking components at any position among ordinary "
+        "components, under random policies and validation-mode overrides, are validated call by call by RunTrace (records with line "
+        "numbers, the call on which messages are printed, verdict, stop, the exception that ends the run, returned lines).",
+        note="Trusted: TLC, the probed concrete error-provoking components as representatives of their kinds. printed/collected are judged "
         "per offending line (>= 1 record), not by exact count. match/no-match overrides only with built-in argument validation on the component.",
-        technique="TLA+ spec (ErrorPolicy) model-checked exhaustively with TLC; all behaviours replayed into the implementation",
+        technique="TLA+ spec (ErrorPolicy) model-checked exhaustively with TLC, all behaviours replayed into the implementation; implementation traces validated against the run machine extended with the handler",
         ref="7 (C05)",
     ),
     "C14": dict(
